@@ -7,7 +7,7 @@ from common import hx
 from props.c01 import keys_of
 
 ID = "C02"
-LEAN_IMPORTS = ["PyTrie.Props.C02"]
+LEAN_IMPORTS = ["PyTrie.Props.C02", "PyTrie.Props.RawLevel"]
 THEOREMS = [
     "PyTrie.Props.C01.canon_run",
     "PyTrie.Hex.canon_unique",
@@ -20,6 +20,9 @@ THEOREMS = [
     "PyTrie.Props.C02.root_is_yellow_paper_trie",
     "PyTrie.Props.C02.node_is_yellow_paper_c",
     "PyTrie.Props.C02.ref_is_yellow_paper_n",
+    "PyTrie.Props.Raw.set_refines",
+    "PyTrie.Props.Raw.delete_refines",
+    "PyTrie.Props.Raw.keccak_is_std",
 ]
 RULE = ("histories as for C01 (4 configurations) with values aimed at the 31/32/33-byte embedding boundary of leaf, "
         "extension and branch encodings; after every operation root_hash and the body stored under it are compared "
